@@ -164,6 +164,7 @@ def step (st : DState2) (line : String) : DState2 × String :=
   | "ctr" :: args => (st, opCtr args)
   | "buf" :: args => (st, opBuf args)
   | "gen" :: args => (st, opGen args)
+  | "renum" :: args => (st, opRenum args)
   | "asset" :: args => let r := defAsset st.core args; ({ st with core := r.1 }, r.2)
   | "rep" :: args => let r := defRep st.core args; ({ st with core := r.1 }, r.2)
   | "seg" :: args => (st, opSeg st.core args)
